@@ -92,6 +92,28 @@ func newOPLConfigWatcher(ctx context.Context, c *Config, target string) (*oplCon
 	}
 }
 
+// ShouldReload reports whether the namespace manager has to be replaced for the
+// given config value. A watched file target only needs a new watcher when the
+// location changed: replacing it on every reload of the config file (the
+// embedded in-memory manager compares against a namespace list, which never
+// equals a location) would forget the last valid version of every file.
+func (nw *oplConfigWatcher) ShouldReload(newValue interface{}) bool {
+	cfg, ok := newValue.(map[string]any)
+	if !ok {
+		return true
+	}
+	location, ok := cfg["location"].(string)
+	if !ok || location != nw.target {
+		return true
+	}
+	targetUrl, err := urlx.Parse(nw.target)
+	if err != nil {
+		return true
+	}
+	// only file targets are watched; everything else is fetched once per manager
+	return targetUrl.Scheme != "file" && targetUrl.Scheme != ""
+}
+
 func (nw *oplConfigWatcher) handleChange(e *watcherx.ChangeEvent) {
 	// the lock is acquired before parsing to ensure that the getters are
 	// waiting for the updated values
